@@ -103,6 +103,7 @@ macro_rules! atomic_op {
             //    cause the buffer to become detached.
             let ta = ta.borrow();
             let ta = ta.data();
+            let buf_len = revalidate_atomic_access(ta, access)?;
             let mut buffer = ta.viewed_array_buffer().as_buffer_mut();
             let Some(mut data) = buffer.bytes_with_len(buf_len) else {
                 return Err(JsNativeError::typ()
@@ -195,6 +196,7 @@ impl Atomics {
         // 2. Perform ? RevalidateAtomicAccess(typedArray, indexedPosition).
         let ta = ta.borrow();
         let ta = ta.data();
+        let buf_len = revalidate_atomic_access(ta, access)?;
         let buffer = ta.viewed_array_buffer().as_buffer();
         let Some(data) = buffer.bytes_with_len(buf_len) else {
             return Err(JsNativeError::typ()
@@ -231,10 +233,14 @@ impl Atomics {
             value.to_bigint(context)?.into()
         } else {
             // 3. Otherwise, let v be 𝔽(? ToIntegerOrInfinity(value)).
-            match value.to_integer_or_infinity(context)? {
-                IntegerOrInfinity::PositiveInfinity => f64::INFINITY,
-                IntegerOrInfinity::Integer(i) => i as f64,
-                IntegerOrInfinity::NegativeInfinity => f64::NEG_INFINITY,
+            // NOTE: `to_integer_or_infinity` saturates at the `i64` range, but `v` is also the
+            //       value returned to the caller, so truncate the number itself.
+            let number = value.to_number(context)?;
+            if number.is_nan() {
+                0.0
+            } else {
+                // `+ 0.0` turns -0 into +0.
+                number.trunc() + 0.0
             }
             .into()
         };
@@ -243,6 +249,7 @@ impl Atomics {
         // 4. Perform ? RevalidateAtomicAccess(typedArray, indexedPosition).
         let ta = ta.borrow();
         let ta = ta.data();
+        let buf_len = revalidate_atomic_access(ta, access)?;
         let mut buffer = ta.viewed_array_buffer().as_buffer_mut();
         let Some(mut buffer) = buffer.bytes_with_len(buf_len) else {
             return Err(JsNativeError::typ()
@@ -291,6 +298,7 @@ impl Atomics {
         // 6. Perform ? RevalidateAtomicAccess(typedArray, indexedPosition).
         let ta = ta.borrow();
         let ta = ta.data();
+        let buf_len = revalidate_atomic_access(ta, access)?;
         let mut buffer = ta.viewed_array_buffer().as_buffer_mut();
         let Some(mut buffer) = buffer.bytes_with_len(buf_len) else {
             return Err(JsNativeError::typ()
@@ -703,6 +711,40 @@ fn validate_atomic_access(
         byte_offset: offset,
         kind,
     })
+}
+
+/// [`RevalidateAtomicAccess ( typedArray, byteIndexInBuffer )`][spec]
+///
+/// The conversion of the arguments of an atomic operation can run arbitrary code, which can
+/// shrink or detach the buffer after [`validate_atomic_access`] computed the position of the
+/// access. Returns the current byte length of the buffer.
+///
+/// [spec]: https://tc39.es/ecma262/#sec-revalidateatomicaccess
+fn revalidate_atomic_access(array: &TypedArray, access: AtomicAccess) -> JsResult<usize> {
+    // 1. Let taRecord be MakeTypedArrayWithBufferWitnessRecord(typedArray, unordered).
+    // 2. NOTE: Bounds checking is not a synchronizing operation when typedArray's backing buffer is a growable SharedArrayBuffer.
+    // 3. If IsTypedArrayOutOfBounds(taRecord) is true, throw a TypeError exception.
+    let buffer = array.viewed_array_buffer().as_buffer();
+    let Some(buf_len) = buffer
+        .bytes(Ordering::Relaxed)
+        .map(|buf| buf.len())
+        .filter(|len| !array.is_out_of_bounds(*len))
+    else {
+        return Err(JsNativeError::typ()
+            .with_message("typed array is outside the bounds of its inner buffer")
+            .into());
+    };
+
+    // 4. Assert: byteIndexInBuffer ≥ typedArray.[[ByteOffset]].
+    // 5. If byteIndexInBuffer ≥ taRecord.[[CachedBufferByteLength]], throw a RangeError exception.
+    // NOTE: the whole element has to be inside the buffer, not only its first byte.
+    if access.byte_offset + access.kind.element_size() as usize > buf_len {
+        return Err(JsNativeError::range()
+            .with_message("index for typed array outside of bounds")
+            .into());
+    }
+
+    Ok(buf_len)
 }
 
 #[cfg(test)]
